@@ -2,13 +2,17 @@
 import numeric
 
 
+REPO_ASSUME = ("thorough tier: every model / filter call the repository's own test-suite executes is recorded (pytest plugin, /repo untouched), "
+               "projected against the Jacobian trees Derive.tla derives from the recorded definition, and validated by EKFCalls_Trace.tla")
+
+
 def run(ctx):
     return numeric.run_numeric(
         ctx, sim=("MC_EKF", "MC_C04_sim.cfg"), sim_num_quick=96, sim_num_thorough=2400,
         rule="behaviour = definition + SetEstimate/Predict sequence; each Predict compares state and covariance by name with "
              "TLC's exact G P G^T + V M V^T, checks that the inputs were not modified and that repeating the call is identical",
         scope="simulation: 1-3 states, 0-2 controls (distinct per-control noise), 0-2 calibrations, rational fragment, SPD integer covariances D + v v^T",
-        assumptions=numeric.BASE_ASSUME)
+        assumptions=numeric.BASE_ASSUME + [REPO_ASSUME], repo_tests=True)
 
 
 def replay(ctx, path):
